@@ -18,7 +18,8 @@ namespace EmuVerif.Autosave
 
 inductive FileSt (σ : Type) where
   | absent
-  | part               -- "partial": exists, content is a strict prefix of a pickle (or not yet flushed)
+  | part               -- "partial": exists; what is on disk is only guaranteed to be a prefix of a pickle
+                       -- (torn write, or bytes still sitting in the process' write buffer)
   | complete (v : σ)   -- exists, closed, `pickle.load` gives back snapshot `v`
   deriving DecidableEq, Repr
 
@@ -54,7 +55,8 @@ def FS.empty : FS σ := ⟨.absent, .absent, .absent⟩
 /-- Primitive operations issued by `save_simulation` / `_run`. -/
 inductive Op (σ : Type) where
   | openW (n : Name)              -- `open(n, "wb")`: creates / truncates
-  | write (n : Name) (v : σ)      -- `pickle.dump(self, fh)` + close of the `with` block: NOT atomic
+  | write (n : Name) (v : σ)      -- `pickle.dump(self, fh)`: NOT atomic, and BUFFERED: on return the disk holds a prefix
+  | close (n : Name) (v : σ)      -- leaving the `with` block: flush + close of the handle whose file is now named `n`
   | replace (src dst : Name)      -- `os.replace(src, dst)`: atomic, overwrites
   | rename (src dst : Name)       -- `os.rename(src, dst)` (POSIX: atomic, overwrites)
   | remove (n : Name)             -- `os.remove(n)`
@@ -69,7 +71,11 @@ def move (fs : FS σ) (src dst : Name) : Option (FS σ) :=
 /-- Effect of a *completed* operation; `none` = the call raises and the state is unchanged. -/
 def applyOp (fs : FS σ) : Op σ → Option (FS σ)
   | .openW n => some (fs.set n .part)
-  | .write n v =>
+  | .write n _ =>
+    match fs.get n with
+    | .absent => none
+    | _ => some (fs.set n .part)
+  | .close n v =>
     match fs.get n with
     | .absent => none
     | _ => some (fs.set n (.complete v))
@@ -81,7 +87,7 @@ def applyOp (fs : FS σ) : Op σ → Option (FS σ)
     | _ => some (fs.set n .absent)
 
 /-- States visible if the process dies *inside* an operation (only the write is not atomic:
-any strict prefix of the bytes, or all bytes but not yet flushed/closed). -/
+any strict prefix of the bytes). -/
 def midStates (fs : FS σ) : Op σ → List (FS σ)
   | .write n _ => [fs.set n .part]
   | _ => []
@@ -94,8 +100,11 @@ def runOps (fs : FS σ) : List (Op σ) → FS σ
     | some fs' => runOps fs' ops
     | none => fs
 
-/-- Every file-system state in which a crash (kill, power loss, exception) during `ops` can leave
-the directory: before the first operation, inside a write, after each completed operation. -/
+/-- Every file-system state in which a crash during `ops` can leave the directory: before the first
+operation, inside a write, after each completed operation. Semantics = *process kill* (SIGKILL,
+`os._exit`, power loss to the process): nothing else runs, in particular the write buffer of an open
+handle is lost (that is why `write` leaves `part` and only `close` makes the file `complete`). An
+exception is milder: unwinding leaves the `with` block, which flushes. -/
 def crashStates (fs : FS σ) : List (Op σ) → List (FS σ)
   | [] => [fs]
   | op :: ops =>
@@ -116,27 +125,34 @@ def crashStatesL (fs : FS σ) (k : Nat) : List (Op σ) → List (String × FS σ
 
 /-! ### `save_simulation`, the file part -/
 
-/-- Current code: `with open(.new,"wb") as fh: pickle.dump(self, fh)`; `os.replace(.new, base)`. -/
+/-- Current code: `with open(.new,"wb") as fh: pickle.dump(self, fh)`; `os.replace(.new, base)`:
+the handle is flushed and closed (end of the `with` block) BEFORE the rename. -/
 def saveNew (w : σ) : List (Op σ) :=
-  [.openW .new, .write .new w, .replace .new .base]
+  [.openW .new, .write .new w, .close .new w, .replace .new .base]
+
+/-- Variant with the rename inside the `with` block (`os.replace` indented one level too deep): the
+rename happens while the handle is open; the flush then goes into the inode now called `base`. -/
+def saveEarlyReplace (w : σ) : List (Op σ) :=
+  [.openW .new, .write .new w, .replace .new .base, .close .base w]
 
 /-- The code before commit 3262c67: write `.new`; `if base.is_file(): rename(base, .bak)`;
 `rename(.new, base)`; `if .bak.is_file(): remove(.bak)`. The two `is_file()` tests are resolved
 from the directory state at entry (`.bak` exists afterwards iff `base` or `.bak` existed). -/
 def saveOld (fs : FS σ) (w : σ) : List (Op σ) :=
-  [.openW .new, .write .new w]
+  [.openW .new, .write .new w, .close .new w]
     ++ (if fs.base.present then [.rename .base .bak] else [])
     ++ [.rename .new .base]
     ++ (if fs.base.present || fs.bak.present then [.remove .bak] else [])
 
 inductive Variant where
-  | current | threeStep
+  | current | threeStep | earlyReplace
   deriving DecidableEq, Repr
 
 def saveOps (var : Variant) (fs : FS σ) (w : σ) : List (Op σ) :=
   match var with
   | .current => saveNew w
   | .threeStep => saveOld fs w
+  | .earlyReplace => saveEarlyReplace w
 
 /-- Directory after a sequence of completed autosaves of the snapshots `vs` (current code). -/
 def afterSaves (fs : FS σ) (vs : List σ) : FS σ :=
